@@ -134,7 +134,8 @@ Definition winner (l : list attr) : option attr :=
   match find a_imp l with Some d => Some d | None => last_opt l end.
 
 (* ---- whole documents for the `selector` correspondence: elements in pre-order with the parent's index ---- *)
-Record sitem := { si_parent : option nat; si_info : einfo; si_x : xelem }.
+(* si_tree = false: an XML element that is a sibling for the matcher but is not copied into the svgtree (`style`) *)
+Record sitem := { si_parent : option nat; si_info : einfo; si_x : xelem; si_tree : bool }.
 Definition opt_nat_eqb (a b : option nat) : bool :=
   match a, b with Some x, Some y => Nat.eqb x y | None, None => true | _, _ => false end.
 Fixpoint positions_from (seen : list sitem) (acc : list epos) (rest : list sitem) : list epos :=
@@ -146,8 +147,12 @@ Fixpoint positions_from (seen : list sitem) (acc : list epos) (rest : list sitem
       positions_from (seen ++ [it]) (acc ++ [(si_info it, prevs) :: up]) r
   end.
 Definition positions (items : list sitem) : list epos := positions_from [] [] items.
+Definition tree_idx (items : list sitem) (j : nat) : nat := length (filter si_tree (firstn j items)).
 Definition doc_items (rules : list rule) (items : list sitem) : list (option nat * xelem) :=
-  map (fun ip => (si_parent (fst ip), set_css (si_x (fst ip)) (sheet_css rules (snd ip)))) (combine items (positions items)).
+  flat_map (fun ip => if si_tree (fst ip)
+                      then [(option_map (tree_idx items) (si_parent (fst ip)), set_css (si_x (fst ip)) (sheet_css rules (snd ip)))]
+                      else [])
+           (combine items (positions items)).
 (* (rules in source order: injected sheet, then the document's; elements; the implementation's resolved lists) *)
 Definition sel_case_ok (c : list rule * list sitem * list (list attr)) : bool :=
   let '(rules, items, impl) := c in doc_case_ok (doc_items rules items, impl).
